@@ -141,7 +141,7 @@ func buildTable() *Node {
 				leaf("name", "string"), leaf("descr", "string"), leaf("descr-long", "string"),
 				leaf("mtu", "uint16"), leaf("defmtu", "uint16", def("1500")), leaflist("tags", "string"),
 				leaf("oper", "string", state()),
-				cont("cfg", leaf("mode", "string"), cont("pres", presence())),
+				cont("cfg", leaf("mode", "string"), cont("pres", presence()), leaf("descr", "string")),
 				list("sub", "id", leaf("id", "uint32"), leaf("v", "string")),
 				leaf("extattr", "string", ext()),
 			),
@@ -158,6 +158,7 @@ func buildTable() *Node {
 			leaf("ca", "string", member("top", "c1")), leaf("ca2", "string", member("top", "c1")),
 			leaf("cb", "string", member("top", "c2")),
 			cont("cbc", member("top", "c2"), leaf("x", "string")),
+			cont("cbp", member("top", "c2"), presence(), leaf("y", "string")),
 			leaflist("cl", "string", member("top", "c3")),
 			leaf("ca-x", "string"), leaf("ca_x", "string"), leaf("other", "string"),
 			cont("cb-x", leaf("v", "string")),
